@@ -27,9 +27,12 @@ Next ==
                     line \in 0..(VN - 1), a \in 0..(VN - 1), b \in 0..(VN - 1)}
          /\ t'[4] < t'[5] /\ SegNo(t'[3], t'[4], t'[5]) % SegEvery = SegOff
     \/ Kind = "pair" /\ Len(t) = 2 /\
-         t' \in {<<"pair", t[2], k, x, y>> :
-                    k \in 0..(P4(t[2]) - 1), x \in 0..(P4(Lp - t[2]) - 1), y \in 0..(P4(Lp - t[2]) - 1)}
-         /\ t'[4] <= t'[5] /\ (t'[3] * 31 + t'[4] * 7 + t'[5]) % PairEvery = PairOff
+         LET w == P4(Lp - t[2])
+             step == IF w > 8 THEN w \div 8 ELSE 1
+             pick == {x \in 0..(w - 1) : x % step = PairOff % step}
+         IN  t' \in {<<"pair", t[2], k, x, y>> : k \in {z \in 0..(P4(t[2]) - 1) : z % PairEvery = 0},
+                                                 x \in pick, y \in pick}
+         /\ t'[4] <= t'[5]
 
 IsCell == Kind = "cell" /\ Len(t) = 3
 C == <<t[2], t[3]>>
@@ -44,11 +47,10 @@ T_Touch == IsCell =>
     /\ Cardinality(TouchSet(C)) = (P2(Lp - C[1]) + 1) * (P2(Lp - C[1]) + 1)
 T_Seg ==
     (Kind = "seg" /\ Len(t) = 5) =>
-        \A c \in Cells :
-            SegCrosses(c, t[2], t[3], t[4], t[5]) <=>
-                \E q \in Probes : /\ Prefix(c, q)
-                                  /\ (IF t[2] = 0 THEN J(q) = t[3] /\ I(q) \in t[4]..t[5]
-                                      ELSE I(q) = t[3] /\ J(q) \in t[4]..t[5])
+        LET row == {q \in Probes : IF t[2] = 0 THEN J(q) = t[3] /\ I(q) \in t[4]..t[5]
+                                                ELSE I(q) = t[3] /\ J(q) \in t[4]..t[5]}
+        IN  \A c \in Cells :
+                SegCrosses(c, t[2], t[3], t[4], t[5]) <=> \E q \in row : Prefix(c, q)
 
 \* ---- emission -----------------------------------------------------------------------
 CellLess(a, b) == a[1] < b[1] \/ (a[1] = b[1] /\ a[2] < b[2])
